@@ -132,7 +132,7 @@ func (it *Interp) runeMatch(inst *syntax.Inst, b *Term) *Term {
 			if lo <= 0x80 && hi >= 0x10FFFF {
 				alts = append(alts, bvCmp("bvuge", b, mkBV(8, 0x80)))
 			} else {
-				it.mstate.assumptions["regexp: a character class with specific non-ASCII members is treated as not matching bytes >= 0x80"] = true
+				panic(unsupported("regexp: a character class with specific non-ASCII members (e.g. produced by Unicode case folding): the byte-wise regexp model is exact only for ASCII classes, negated classes and '.'"))
 			}
 			return
 		}
@@ -141,7 +141,7 @@ func (it *Interp) runeMatch(inst *syntax.Inst, b *Term) *Term {
 				alts = append(alts, bvCmp("bvuge", b, mkBV(8, uint64(lo))))
 				return
 			}
-			it.mstate.assumptions["regexp: a character class with specific non-ASCII members is treated as not matching bytes >= 0x80"] = true
+			panic(unsupported("regexp: a character class with specific non-ASCII members (e.g. produced by Unicode case folding): the byte-wise regexp model is exact only for ASCII classes, negated classes and '.'"))
 			hi = 0x7f
 		}
 		if lo == hi {
